@@ -565,7 +565,7 @@ class AttrGen:
         depth = self.max_depth if depth is None else depth
         if depth <= 0:
             p = r.random()
-            return self.scalar_type() if p < .9 else (b.NoneType() if p < .95 else b.TupleType([]))
+            return self.scalar_type() if p < .9 else (b.NoneType() if p < .95 else b.TupleType(()))
         k = r.choice(["scalar", "scalar", "tensor", "tensor", "memref", "memref", "vector", "function", "tuple",
                       "complex", "utensor", "umemref", "none"])
         if k == "scalar":
@@ -577,7 +577,7 @@ class AttrGen:
         if k == "vector":
             return self.vector_type(depth - 1)
         if k == "tuple":
-            return b.TupleType([self.type(depth - 1) for _ in range(r.choice([0, 1, 2, 3]))])
+            return b.TupleType(tuple(self.type(depth - 1) for _ in range(r.choice([0, 1, 2, 3]))))
         if k == "function":
             return b.FunctionType.from_lists([self.type(depth - 1) for _ in range(r.choice([0, 1, 2]))],
                                              [self.type(depth - 1) for _ in range(r.choice([0, 1, 1, 2]))])
@@ -748,7 +748,7 @@ class AttrGen:
         meta = b.NoneAttr()
         if r.random() < .25 and "fused_meta" not in self.avoid:
             meta = self.attr(0)
-        return b.FusedLoc(locs, meta)
+        return b.FusedLoc(b.ArrayAttr(locs), meta)
 
     def opaque_attr(self):
         b, r = self.b, self.r
@@ -857,7 +857,10 @@ def near_duplicates(a, rng, k=4):
         if len(out) >= k:
             break
         target = rng.choice(nodes)
-        repl = _mutate_leaf(target, rng, b)
+        try:
+            repl = _mutate_leaf(target, rng, b)
+        except (ValueError, OverflowError, NotImplementedError):  # constructor rejects the mutated payload: not a value
+            repl = None
         if repl is None:
             continue
         done = [False]
